@@ -568,7 +568,7 @@ pub fn run(tier: &Tier) -> i32 {
     }
     c.states.fetch_add(cases.len() as u64, Ordering::Relaxed);
     // vacuity guards
-    if prints.load(Ordering::Relaxed) < 1000 || prompt_prints.load(Ordering::Relaxed) < 300 || reports.load(Ordering::Relaxed) < 30 {
+    if (prints.load(Ordering::Relaxed) < 1000 || prompt_prints.load(Ordering::Relaxed) < 300 || reports.load(Ordering::Relaxed) < 30) && rep.unknown_count() == 0 {
         eprintln!("MACHINERY: C17 explored too little (prints {}, prompt prints {}, reports {})", prints.load(Ordering::Relaxed), prompt_prints.load(Ordering::Relaxed), reports.load(Ordering::Relaxed));
         return 2;
     }
